@@ -44,7 +44,7 @@ func GenSshdMsg(t *simrt.Tape, form string, uniq int) *SshdMsg {
 		form = sshdForms[t.Choose(len(sshdForms), "form")]
 	}
 	pid := fmt.Sprint(1000 + uniq*7 + t.Choose(5000, "pid"))
-	user := fmt.Sprintf("%s%d", users[t.Choose(len(users), "user")], uniq)
+	user := userName(t, uniq)
 	ip := ips[t.Choose(len(ips), "ip")]
 	port := t.Choose(65536, "port")
 	m := &SshdMsg{Form: form, PID: pid}
